@@ -30,6 +30,7 @@ MODULES = {
     'C07': 'harness.c07',
     'C08': 'harness.c08',
     'C12': 'harness.c12',
+    'C13': 'harness.c13',
 }
 
 
@@ -52,6 +53,8 @@ def match_known(known, pid, case, cfg, label):
                for a, b in k.get('cfg', {}).items()):
             continue
         if not re.search(k.get('label', '.*'), label):
+            continue
+        if 'cfg_regex' in k and not re.search(k['cfg_regex'], repr(cfg)):
             continue
         return k
     return None
